@@ -438,7 +438,7 @@ FAMILIES = dict(aliasedModuleAttrStore=fam_alias, exceptNameLoopCarried=fam_b5, 
 class C05(Prop):
     id = "C05"
     driver = "C05"
-    lean_modules = ["Pfb.C05.Props", "Pfb.PyCore.Json", "Pfb.PyCore.Unused", "Pfb.C05.PropsG", "Pfb.C05.PropsH"]
+    lean_modules = ["Pfb.C05.Props", "Pfb.PyCore.Json", "Pfb.PyCore.Unused", "Pfb.C05.PropsG", "Pfb.C05.PropsH", "Pfb.C05.PropsI"]
     theorems = [
         "Pfb.C05.C05_sound_fragB",
         "Pfb.C05.C05_precise_fragB",
@@ -469,6 +469,9 @@ class C05(Prop):
         "Pfb.C05.C05_sound_fragH", "Pfb.C05.C05_precise_fragH", "Pfb.C05.fragC_sub_fragH", "Pfb.C05.plainB_plainH_fragC",
         "Pfb.C05.witness_default_not_param", "Pfb.C05.witness_default_evaluated_at_def",
         "Pfb.C05.witness_lambda_param_local_H", "Pfb.C05.witness_lambda_late_binding_H",
+        "Pfb.C05.C05_sound_fragI", "Pfb.C05.C05_precise_fragI", "Pfb.C05.fragB_sub_fragI",
+        "Pfb.C05.witness_class_local", "Pfb.C05.witness_class_lookup", "Pfb.C05.witness_self_body",
+        "Pfb.C05.witness_self_before", "Pfb.C05.witness_method", "Pfb.C05.witness_method_inline",
     ]
     anchors = [
         ("lib/python/pyflyby/_autoimp.py", "ScopeStack"),
